@@ -101,7 +101,7 @@ E = "a node that always breaks (code block with two statements or with a comment
 kf("K8a-C03", "E forced-break-under-suppression", "C03", r"^C03\|not-idempotent\|spine=(mixed|math_i|math_b|math_hash|item|heading|strong)/[^|]*(block2_semi|block2_ml|import\w*|table\w*|grid\w*)[^|]*\|size=", "foo #({a; b},) bar", E, "not-idempotent")
 kf("K8a2-C03", "E forced-break-under-suppression (text line built by a production)", "C03", r"^C03\|not-idempotent\|spine=(doc/(hash_text|hash_tight|text_hash)(@\d)?|hash/[^/|]+)/[^|]*(block2_semi|block2_ml|import\w*|table\w*|grid\w*)\|size=", "#if a { import \"m.typ\": a } foo", E + " - here the text line comes from a production (code followed by text on the same line; in markup a binary operator after an embedded expression is text)", "not-idempotent")
 kf("K8k-C03", "E forced-break-under-suppression (with a deviation elsewhere)", "C03", r"^C03\|not-idempotent\|dev=.*\|at=(mixed|math_i|math_b|math_hash|hash|item|heading|strong|let|arg|doc)/.*(block2_semi|block2_ml)", "#if a { {b; c} } elseif d { e }", E, "not-idempotent")
-kf("K6-C03", "D5 list-after-bracket-unbreakable", "C03", r"^C03\|not-idempotent\|(spine|dev=.*\|at)=(mixed|strong|heading|item)/content\w*@0/(list|enum|term)\w*", "foo #[10. 1. foo\n       bar\n    2. baz] bar", D5 + " - the first pass indents the lines relative to the enclosing indentation, the second pass reads them as a different nesting (with the plain 'foo #[- foo<newline>- bar] bar' this needs tab width 8)", "not-idempotent")
+kf("K6-C03", "D5 list-after-bracket-unbreakable", "C03", r"^C03\|not-idempotent\|(spine|dev=.*\|at)=(mixed|strong|heading|item)/content\w*@0/(list|enum|term)\w*", "foo #[- foo\n- bar] bar", D5 + " - with tab width 8 the first pass nests the second item and the second pass nests it further", "not-idempotent")
 kf("K8l-C03", "directive at the end of a list item line", "C03", r"^C03\|not-idempotent\|(.*&)?dev=markup:ListItem>Markup\[Text\^ListMarker\]:(off_lc|off_reason)", "#g[\n  - foo// @typstyle off\n- bar\n      - baz\n]", "a line-comment directive at the end of a list item line protects the following list item; its verbatim text keeps the source indentation, which the next pass reads as a different nesting", "not-idempotent")
 kf("K8b-C03", "E forced-break-under-suppression", "C03", r"^C03\|not-idempotent\|(.*&)?dev=code:\w+>(CodeBlock|Code)\[[^\]]*\]:(bc|bc_sp|bc_ml|bc_star|bc_bc|nl_bc_nl|lc|lc_sp|lc_lc|nl_lc|off_bc|off_lc|off_tight|off_reason|off_mid|bc_ws_line|bc_blank|bc_tab|bc_uni)", "$#g({a/*c1*/})$", E, "not-idempotent")
 kf("K8c-C03", "E / trivia inside a field access chain", "C03", r"^C03\|not-idempotent\|(.*&)?dev=\w+:\w+>FieldAccess\[.*\|at=.*(block2_semi|block2_ml|import\w*|table\w*|grid\w*)", "#a.f({b; c}).\ng(d)", "a line break or comment inside a method chain whose call arguments hold a node that always breaks: " + E, "not-idempotent")
@@ -131,12 +131,6 @@ kf("K12-C05", "P11 recursion-depth", "C05", r"^C05\|nesting-beyond-required-dept
 SAME = r"(list_list3?|enum_wide_list|enum_wide_enum|list_enum_same|term_list_same)"
 K18 = "an item that starts on the line of another item's marker ('- - a', '10. - a'): what belongs to the outer item must be indented by at most the column of the inner marker (marker width + 1), so that indentation follows the marker and not the indent unit; a multiple of the unit would put the line into the wrong item (cannot hold together with C01 for the same input; before the repair of the nesting defect the lines were indented by the unit and left their item)"
 kf("K18-C12", "same-line nested item: indentation follows the marker", "C12", r"^C12\|(indent-not-proportional|not-multiple-of-unit)\|.*" + SAME, "- - foo\n    bar", K18, "indent-not-proportional")
-K5C = "a block comment in front of (or between) the markers of an item that starts on the line of another item's marker: the columns of the markers depend on the width of the comment's last line, which the printer does not track (same class as K5: needs column-aware comment placement)"
-kf("K5c-C01", "P15 comment-before-list-marker (same-line nested item)", "C01", r"^C01\|tree\|(.*&)?dev=markup:->Markup\[-\^(List|Enum|Term)Marker\]:bc\w*\|at=doc/" + SAME, "/* c1\n * d\n */- - foo\n    bar", K5C, "tree")
-kf("K5c-C03", "P15 comment-before-list-marker (same-line nested item)", "C03", r"^C03\|not-idempotent\|(.*&)?dev=markup:(->Markup\[-\^(List|Enum|Term)Marker\]|Markup>(List|Enum)Item\[(List|Enum)Marker\^(List|Enum)Marker\]):bc\w*\|at=(doc|content_ml)/" + SAME, "-/* c1\n * d\n */- foo\n    bar", K5C, "not-idempotent")
-K19 = "a term item whose description starts with a list item on the line of the term ('/ term: - a'): the column of the inner marker depends on the printed width of the term, which the nest-based indentation does not know; with trivia that moves the colon or the marker the continuation lines leave the inner item"
-kf("K19-C01", "list item on the line of a term", "C01", r"^C01\|tree\|.*term_list_same", "/ foo\n  : - bar\n         baz", K19, "tree")
-kf("K19-C03", "list item on the line of a term", "C03", r"^C03\|not-idempotent\|.*term_list_same", "#g[\n  / foo: - bar\n           baz\n]", K19 + " - and the next run moves them again", "not-idempotent")
 P7B = "a blank character that is TEXT in markup (no-break space, ideographic space, em space) at the end of a line is removed by the trailing-blank pass: the prose loses a character (cannot be repaired without violating C11 for the same input: no line may end in a blank character)"
 kf("K1b-C08", "P7 text blank at a line end", "C08", r"^C08\|text-changed\|extra=ws:\w+:TEXTBLANK", "Alpha beta\u00a0\ngamma delta", P7B, "text-changed")
 kf("K1b-C01", "P7 text blank at a line end", "C01", r"^C01\|tree\|extra=ws:\w+:TEXTBLANK", "#[Alpha beta\u00a0\ngamma delta]", P7B, "tree")
@@ -185,6 +179,9 @@ FIXED = [
   fixed("C04", "keep a float literal that ends with a dot apart from a field access after it", "'#(1. .f)' -> '#(1..f)' (side remark of a sub-agent; productions float_dot_field / float_dot_call; follow-up commit for the layout that keeps comments in place)"),
   fixed("C04", "keep a backslash at the end of a term apart from the colon", "'/ term \\ : desc' -> '/ term \\: desc': escaped colon, the output no longer parsed (side remark of a sub-agent; production term_bs; also C01 C08)"),
   fixed("C01", "indent the lines of a list item far enough to stay inside the item", "tab_spaces = 0 moved every nested item to column 0; '10. - a' / '- - a' with tab_spaces = 1 put continuation lines into the column of the inner marker (side remark of a sub-agent; indent units 0 and 1 are now part of every sweep, productions list_list, enum_wide_list ...; follow-up commit: the outer item is indented by the width of its marker; also C02 C03 C08)"),
+  fixed("C01", "align the body of a list item that starts with another item to the column where it starts", "follow-ups of the nesting repair: '- - a' with tab_spaces = 4 put the lines of the outer item into the inner one; a term item whose description starts with an item ('/ term: - a') and a comment in front of the outer marker moved the column of the inner marker (found by the productions list_list, enum_wide_list, term_list_same ... added for the repair; also C02 C03 C13)"),
+  fixed("C13", "range formatting lays the node out from the column where it starts", "'#g[<newline>  - - foo<newline>      bar<newline>]' with the outer item selected: the aligned body of the inner item landed two columns too far left and 'bar' left its item (found by C13 on the new productions)"),
+  fixed("C13", "range formatting finds the column of a list marker after any Typst line terminator", "a list item selected after a line that ends with CR / FF / NEL / LS / PS: the marker column was counted from the last line feed (found by the C13 level 'every other line terminator' on the new productions)"),
   fixed("C04", "do not put braces around a closure body that is reproduced verbatim with a line break", "'#g(x => /* @typstyle off */ v =<newline> b)' at a narrow width: braces around a protected body whose line break ends the statement (side remark of a sub-agent; the directive level now pairs the directive with a line break)"),
   fixed("C03", "sort import items by their text without blanks", "with reordering on, 'a . b, a-c' kept its order in the first run and was swapped by the second (side remark of a sub-agent; import item 'a-c' added to the alphabet; also C19)"),
   fixed("C03", "ignore a line of nothing but blanks when measuring the indentation of a block comment", "a block comment with a tab-only line was re-indented by the second run (side remark of a sub-agent; form bc_tab_line)"),
